@@ -65,7 +65,7 @@ var (
 // vhNewX builds the PeerConnection under test: one audio transceiver and one data channel.
 func vhNewX(tb testing.TB) *PeerConnection {
 	tb.Helper()
-	pc := vNewPC(tb, vNewAPI(tb, vAPIOpts{}), nil)
+	pc := vNewPC(tb, vNewAPI(tb, vAPIOpts{virtualNet: true}), nil)
 	if _, err := pc.AddTransceiverFromKind(RTPCodecTypeAudio); err != nil {
 		vkit.Fatalf(tb, "AddTransceiverFromKind: %v", err)
 	}
@@ -81,7 +81,7 @@ func vhGetPool(tb testing.TB) *vhPool {
 	vhPoolOnce.Do(func() {
 		p := &vhPool{}
 		mk := func(video bool) string {
-			h := vNewPC(tb, vNewAPI(tb, vAPIOpts{}), nil)
+			h := vNewPC(tb, vNewAPI(tb, vAPIOpts{virtualNet: true}), nil)
 			defer func() { _ = h.Close() }()
 			if _, err := h.AddTransceiverFromKind(RTPCodecTypeAudio); err != nil {
 				vkit.Fatalf(tb, "pool: %v", err)
@@ -110,7 +110,7 @@ func vhGetPool(tb testing.TB) *vhPool {
 			if err != nil {
 				vkit.Fatalf(tb, "pool x0 offer: %v", err)
 			}
-			h := vNewPC(tb, vNewAPI(tb, vAPIOpts{}), nil)
+			h := vNewPC(tb, vNewAPI(tb, vAPIOpts{virtualNet: true}), nil)
 			defer func() { _ = h.Close() }()
 			if err = h.SetRemoteDescription(o); err != nil {
 				vkit.Fatalf(tb, "pool SRD: %v", err)
@@ -604,7 +604,6 @@ func vhReplay(tb testing.TB, hist []vhOp) *vhRun {
 
 	return run
 }
-
 
 // vhBFS explores histories over the alphabet breadth-first, merging histories that reach the same
 // canonical state (merge=true) or exploring the full tree (merge=false), to the given depth.
